@@ -251,7 +251,8 @@ def derive(tree, k, pattern):
     owner = {p: i % k for i, p in enumerate(ports)}
     xs = []
     for j in range(k):
-        base = R.subflip(tree) if j % 2 else tree
+        # odd interfaces: signature members declared with the opposite flow and all members declared in the opposite order
+        base = R.reorder(R.subflip(tree)) if j % 2 else tree
         xs.append(R.orient(base, lambda p, j=j: "o" if owner[p] == j else "i"))
     return xs
 
@@ -276,13 +277,14 @@ class Tuple_:
         self.xs = xs
         self.k = len(xs)
         self.ifaces = [realize(x, modes[j], f"i{j}") for j, x in enumerate(xs)]
-        self.lv = [R.leaves(x) for x in xs]
-        self.paths = [l[0] for l in self.lv[0]]
-        self.info = {l[0]: l[2:] for l in self.lv[0]}       # path -> (w, signed, init)
+        self.lv = [{l[0]: l for l in R.leaves(x)} for x in xs]
+        self.paths = [l[0] for l in R.leaves(xs[0])]
+        self.info = {p: l[2:] for p, l in self.lv[0].items()}       # path -> (w, signed, init)
         self.owner = {}
-        for i, p in enumerate(self.paths):
-            outs = [j for j in range(self.k) if self.lv[j][i][1] == "o"]
-            assert [self.lv[j][i][0] for j in range(self.k)] == [p] * self.k and len(outs) == 1, "harness: bad tuple"
+        for p in self.paths:
+            assert all(set(lv) == set(self.paths) for lv in self.lv), "harness: bad tuple"
+            outs = [j for j in range(self.k) if self.lv[j][p][1] == "o"]
+            assert len(outs) == 1, "harness: bad tuple"
             self.owner[p] = outs[0]
 
     def leaf_values(self):
@@ -518,9 +520,8 @@ def run_corruption(xs, modes, cor):
         else:
             put(ifaces[j], where, Const(iv, Shape(w, sg)))
             if what == "const2":
-                lv = [R.leaves(x) for x in xs]
-                idx = [l[0] for l in lv[0]].index(where)
-                o = [i for i in range(len(xs)) if lv[i][idx][1] == "o"][0]
+                lv = [{l[0]: l for l in R.leaves(x)} for x in xs]
+                o = [i for i in range(len(xs)) if lv[i][where][1] == "o"][0]
                 put(ifaces[o], where, Const(to_shape(iv + 1, w, sg), Shape(w, sg)))
     m = Module()
     try:
@@ -692,6 +693,8 @@ def run(rep):
                "member, width, init, second output, constants, object-level width/init, dimensions) of every member / leaf of "
                "every interface; component metadata of sig and sig.flip() compared with the expected document and the "
                "published schema. non-trivial = tree has a signature member or an array dimension")
+    if rep.violations:
+        return      # a failing run is reported as such; vacuity is only a concern for a passing run
     for key in ("signatures", "tuples", "connect_accepted", "connect_rejected", "simulations", "permutations",
                 "leaf_follow_checks", "leaf_idle_checks", "leaves_flattened", "constant_leaves", "metadata_documents",
                 "metadata_leaves", "corrupt_missing", "corrupt_width", "corrupt_init", "corrupt_second-output",
